@@ -2,7 +2,11 @@ package main
 
 // C04: the RTMP server session on arbitrary bytes.
 //
-//	c04.sess <policy> <ver>.<hack> <bytes>
+//	c04.sess <policy>[t][@<recvLastAck>:<seqNum>] <ver>.<hack> <bytes>
+//
+// policy A / R / N: what the observer answers; t: the log level is "trace"
+// (lalserver: "log": {"level": 0}) while the case runs; @a:s: the session's
+// acknowledgement bookkeeping is preset before it starts.
 //
 // runs rtmp.NewServerSession(observer, conn).RunLoop() under recover in this
 // goroutine, then the same input once more through Server.handleTcpConnect
@@ -11,8 +15,10 @@ package main
 import (
 	"errors"
 	"fmt"
+	"github.com/q191201771/naza/pkg/nazalog"
 	"io"
 	"net"
+	"os"
 	"strconv"
 	"strings"
 	"sync"
@@ -285,19 +291,39 @@ func c04Session(a []string) (out string) {
 		return "const-mismatch " + hexOf([]byte(base.LalRtmpConnectResultVersion))
 	}
 	data := bytesTok(a[2])
+	opts := a[0][1:]
+	trace := strings.HasPrefix(opts, "t")
+	opts = strings.TrimPrefix(opts, "t")
+	preset := false
+	var lastAck, seq uint64
+	if strings.HasPrefix(opts, "@") {
+		f := strings.Split(opts[1:], ":")
+		lastAck, seq, preset = numTok(f[0]), numTok(f[1]), true
+	}
+	if trace {
+		_ = nazalog.Init(func(o *nazalog.Option) { o.IsToStdout = false; o.Level = nazalog.LevelTrace })
+		defer func() {
+			_ = nazalog.Init(func(o *nazalog.Option) { o.IsToStdout = false; o.Level = nazalog.LevelError })
+		}()
+	}
 
 	// run 1: the session alone
 	conn := &c04Conn{in: append([]byte{}, data...)}
 	obs := &c04Obs{policy: policy, conn: conn}
+	var sess *rtmp.ServerSession
 	outcome := func() (res string) {
 		defer func() {
 			if r := recover(); r != nil {
 				res = panicSite(r)
 			}
 		}()
-		s := rtmp.NewServerSession(obs, conn)
-		return c04Err(s.RunLoop())
+		sess = rtmp.NewServerSession(obs, conn)
+		if preset {
+			sess.VerifC04PresetAck(lastAck, uint32(seq))
+		}
+		return c04Err(sess.RunLoop())
 	}()
+	reserved, streams := sess.VerifC04ReservedBytes()
 	sawEnd := outcome == "eof" || outcome == "ueof"
 	hs, w := c04Replies(conn, obs, sawEnd)
 
@@ -313,9 +339,29 @@ func c04Session(a []string) (out string) {
 		rtmp.NewServer("", obs2).VerifC04HandleTcpConnect(conn2)
 		return ""
 	}()
-	return fmt.Sprintf("%s hs=%s ev=%s w=%s sh=%s%s", outcome, hs, c04Join(obs.ev), tokBytes(w), c04Kinds(obs2.ev), shell)
+	return fmt.Sprintf("%s hs=%s ev=%s w=%s sh=%s%s mem=%s:%s", outcome, hs, c04Join(obs.ev), tokBytes(w), c04Kinds(obs2.ev), shell,
+		tokNum(uint64(reserved)), tokNum(uint64(streams)))
+}
+
+// c04.rss: peak resident set size of this process so far (VmHWM, KiB); used by
+// the memory regression guard of gen/c04.py, not part of the model comparison
+func c04Rss(a []string) string {
+	b, err := os.ReadFile("/proc/self/status")
+	if err != nil {
+		return "err " + err.Error()
+	}
+	for _, l := range strings.Split(string(b), "\n") {
+		if strings.HasPrefix(l, "VmHWM:") {
+			f := strings.Fields(l)
+			if len(f) >= 2 {
+				return "rss " + f[1]
+			}
+		}
+	}
+	return "err no-VmHWM"
 }
 
 func init() {
 	register("c04.sess", c04Session)
+	register("c04.rss", c04Rss)
 }
